@@ -41,3 +41,27 @@ package storage
 //@ ensures C20-restored-message-has-the-stored-packet-id-origin-and-creation-time: r0.PacketID == d.PacketID && r0.Origin == d.Origin && r0.Created == d.Created
 //@ ensures C20-restored-message-has-the-stored-publish-properties: r0.Properties.PayloadFormat == d.Properties.PayloadFormat && (r0.Properties.PayloadFormatFlag <==> d.Properties.PayloadFormatFlag) && r0.Properties.MessageExpiryInterval == d.Properties.MessageExpiryInterval && r0.Properties.ContentType == d.Properties.ContentType && r0.Properties.ResponseTopic == d.Properties.ResponseTopic && sameBytes(r0.Properties.CorrelationData, d.Properties.CorrelationData) && len(r0.Properties.User) == len(d.Properties.User) && (forall i int :: 0 <= i && i < len(d.Properties.User) ==> r0.Properties.User[i] == d.Properties.User[i])
 //@ ensures C20-restored-message-expires-when-the-stored-one-did: r0.Created == d.Created && r0.Expiry == d.Expiry && r0.ProtocolVersion == d.Version
+
+// ---- the keys of the three key-value back ends tell records apart (C20: "any client identifiers, filters and topics,
+// including ones containing separator characters").  Decided over the SMT-LIB theory of strings (strings=native). ----
+// verif:lemma client_keys_distinct strings=native
+//@ vars id1 string, id2 string
+//@ requires id1 != id2
+//@ ensures C20-distinct-sessions-have-distinct-keys: ckey(id1) != ckey(id2)
+// verif:lemma retained_keys_distinct strings=native
+//@ vars t1 string, t2 string
+//@ requires t1 != t2
+//@ ensures C20-distinct-topics-have-distinct-keys: rkey(t1) != rkey(t2)
+// verif:lemma subscription_keys_distinct strings=native replaypkg=./hooks/storage/badger
+//@ vars id1 string, f1 string, id2 string, f2 string
+//@ requires !(id1 == id2 && f1 == f2) && len(id1) > 0 && len(id2) > 0 && len(f1) > 0 && len(f2) > 0
+//@ ensures C20-distinct-subscriptions-have-distinct-keys: skey(id1, f1) != skey(id2, f2)
+// what does hold: the subscription keys of client ids without ':' are distinct
+// verif:lemma subscription_keys_distinct_without_colon_in_ids strings=native
+//@ vars id1 string, f1 string, id2 string, f2 string
+//@ requires !(id1 == id2 && f1 == f2) && !strcontains(id1, ":") && !strcontains(id2, ":")
+//@ ensures C20-distinct-subscriptions-of-colon-free-client-ids-have-distinct-keys: skey(id1, f1) != skey(id2, f2)
+// the kinds of record do not collide with each other either (the prefixes differ)
+// verif:lemma record_kinds_have_distinct_keys strings=native
+//@ vars a string, b string, c string
+//@ ensures C20-a-session-key-is-no-subscription-or-retained-key: ckey(a) != skey(b, c) && ckey(a) != rkey(b) && rkey(a) != skey(b, c)
